@@ -186,6 +186,11 @@ def backend_eq(M, n1, n2, tag):
 
 # ---------------------------------------------------------------- workload
 KINDS = ("date", "naive", "utc", "fixed", "zone")
+SAME_OFFSET_GROUPS = [["Europe/Paris", "Europe/Berlin", "Europe/Madrid", "Europe/Rome", "Europe/Warsaw"], ["America/New_York", "America/Toronto", "America/Detroit"],
+                      ["Asia/Kolkata", "Asia/Colombo"], ["Asia/Tokyo", "Asia/Seoul"], ["Australia/Sydney", "Australia/Melbourne", "Australia/Hobart"],
+                      ["America/Los_Angeles", "America/Vancouver", "America/Tijuana"], ["Pacific/Auckland", "Antarctica/McMurdo"],
+                      ["Asia/Shanghai", "Asia/Singapore", "Australia/Perth", "Asia/Manila"], ["America/Sao_Paulo", "America/Argentina/Buenos_Aires"],
+                      ["Asia/Kathmandu", "Asia/Kolkata"], ["Africa/Cairo", "Europe/Athens", "Europe/Helsinki"]]
 TODS = ((12, 0, 0, 0), (0, 0, 0, 0), (23, 59, 59, 999999), (6, 30, 15, 250000))
 
 
@@ -217,6 +222,22 @@ def cases(M):
         if not gen.ok_instant(ub):
             continue
         yield {"k": "rand", "za": za, "zb": za if j % 4 else r.choice(names), "ua": ua, "ub": ub}
+    # differently named zones that share a UTC offset, endpoints within |offset| of local midnight around month ends
+    # (the UTC decomposition then falls on other calendar days/months than the wall-clock one)
+    for j in range(60000 if thorough else 6000):
+        if j % M.nshards != M.shard:
+            continue
+        grp = r.choice(SAME_OFFSET_GROUPS)
+        za, zb = r.sample(grp, 2)
+        y, mo = r.randrange(1995, 2035), r.randrange(1, 13)
+        d1 = dt.date(y, mo, r.choice((1, 1, 2, cal.dim(y, mo), cal.dim(y, mo) - 1, 15)))
+        d2 = d1 + dt.timedelta(days=r.choice((1, 27, 28, 29, 30, 31, 32, 59, 61, 90, 92, 365, 366)))
+        if r.random() < 0.5:
+            d2 = d2.replace(day=r.choice((1, cal.dim(d2.year, d2.month))))
+        tod1, tod2 = r.randrange(0, 13 * 3600) * US, r.randrange(0, 13 * 3600) * US
+        if j % 3 == 0:
+            tod2 = tod1
+        yield {"k": "sameoff", "za": za, "zb": zb, "w1": (d1.toordinal() - 719163) * DAY_US + tod1, "w2": (d2.toordinal() - 719163) * DAY_US + tod2}
     # transitions: pairs on the same side / across, first-pass/second-pass starts
     for zn in gen.shard_zones(M, names if thorough else gen.hostile(names) + r.sample(names, 60)):
         z = tzdb.Z.get(zn)
@@ -271,6 +292,18 @@ def _pair(M, c):
                 return None
             out.append(gen.mk(zn, exp[1]))
         return out[0], out[1], kind
+    if c["k"] == "sameoff":
+        from pvmon.props import c02
+
+        out = []
+        for zn, w in ((c["za"], c["w1"]), (c["zb"], c["w2"])):
+            exp, cls = c02.expect(("iana", zn), w, 1, False)
+            if exp[0] != "value":
+                return None
+            out.append(gen.mk(zn, exp[1]))
+        if inst(out[0]) > inst(out[1]):
+            out.reverse()
+        return out[0], out[1], "diffzone"
     a = gen.mk(c["za"], c["ua"])
     b = gen.mk(c["zb"], c["ub"])
     return a, b, "zone" if c["za"] == c["zb"] else "diffzone"
@@ -334,7 +367,7 @@ def run(M, c):
         if w != ub:
             bad.append("rebuild-utc")
         arm2 = arm_of(dt.datetime(*us_to_fields(ua)), dt.datetime(*us_to_fields(ub)))[0]
-        M.cls("diffzone", arm2, c["za"], c["zb"])
+        M.cls("diffzone", arm2, c["za"], c["zb"], off_us(a) == off_us(b))
         big = ":span>=2^33s" if abs(ub - ua) >= 2**33 * US else ""
         M.check("utc_decomposition", not bad, f"C06/utc-decomposition:{'+'.join(bad)}:arm-{arm2}{big}",
                 "different-zone endpoints are not decomposed as their UTC instants", a=_dsc(a), b=_dsc(b), comps=ci)
